@@ -728,6 +728,10 @@ impl<'a> SkiplistIterator<'a> {
 
 	/// Move to last entry
 	pub fn last(&mut self) {
+		// Forget the upper-bound node cached by an earlier forward run: `is_valid()`
+		// is false on that node, which would stop the skip-back loop below on the very
+		// entry it has to step over (the first key at or past the upper bound).
+		self.upper_node = std::ptr::null_mut();
 		self.nd = self.list.get_prev(self.list.tail, 0);
 		if self.nd == self.list.head || self.nd == self.lower_node {
 			return;
